@@ -101,6 +101,23 @@ def param_sets(ctx):
             yield {'name': 'crossing', 'shape': sh, 'num_rivers': nr, 'object_type': r.choice(NULLARY[:2])}
     for sh in pick(k) + [(4, 4), (4, 5), (5, 5)]:
         yield {'name': 'teleport', 'shape': sh}
+    # counts that are numpy integers (same values, another integer type)
+    for sh in pick(6):
+        cells = max(0, (sh[0] - 2) * (sh[1] - 2))
+        yield {'name': 'dynamic_obstacles', 'shape': sh, 'num_obstacles': min(2, max(0, cells - 2)), 'random_agent': True, 'numpy_ints': True}
+        yield {'name': 'crossing', 'shape': (7, 7), 'num_rivers': 2, 'object_type': NULLARY[0], 'numpy_ints': True}
+        yield {'name': 'memory_rooms', 'shape': (9, 9), 'layout': (2, 2), 'colors': [1, 2, 3, 4], 'num_beacons': 2, 'num_exits': 3, 'numpy_ints': True}
+    # LARGE shapes (far above the shipped 13x13): whatever the code does differently for big inputs
+    big = [(35, 35), (41, 41), (33, 47), (51, 51)] if ctx.tier == 'quick' else [(35, 35), (41, 41), (33, 47), (51, 51), (64, 64), (45, 45), (37, 59)]
+    for sh in big:
+        yield {'name': 'empty', 'shape': sh, 'random_agent': True, 'random_exit': True}
+        yield {'name': 'rooms', 'shape': sh, 'layout': r.choice([(1, 1), (2, 2), (3, 3)])}
+        yield {'name': 'dynamic_obstacles', 'shape': sh, 'num_obstacles': 12, 'random_agent': True}
+        yield {'name': 'keydoor', 'shape': sh}
+        yield {'name': 'crossing', 'shape': (sh[0] | 1, sh[1] | 1), 'num_rivers': 6, 'object_type': NULLARY[0]}
+        yield {'name': 'teleport', 'shape': sh}
+        yield {'name': 'memory', 'shape': (sh[0], sh[1] | 1), 'colors': [1, 2, 3]}
+        yield {'name': 'memory_rooms', 'shape': sh, 'layout': (2, 2), 'colors': [1, 2, 3, 4], 'num_beacons': 2, 'num_exits': 3}
     colsets = [[1, 2], [1, 2, 3, 4], [4, 2, 3], [1], [], [0, 1, 2], [3, 4]]
     for sh in pick(k) + [(5, 5), (9, 9), (5, 7), (6, 5)]:
         yield {'name': 'memory', 'shape': sh, 'colors': r.choice(colsets)}
